@@ -83,12 +83,32 @@ func genC18(r *Rng, tier string) *Plan {
 		}
 		ents[i] = e
 	}
-	kind := Pick(r, []string{"forest", "forest", "forest", "dangling", "self-loop", "cycle", "tail-into-cycle", "collision-file-file", "collision-suffix", "collision-explicit-file", "collision-explicit-explicit"})
+	kind := Pick(r, []string{"forest", "forest", "forest", "case-variant-aliases", "dangling-by-case", "dangling-by-blank", "dangling", "self-loop", "cycle", "tail-into-cycle", "collision-file-file", "collision-suffix", "collision-explicit-file", "collision-explicit-explicit"})
 	late := r.Chance(1, 2) // introduce the breakage after a good run
 	breakIt := func(es []*EntitySpec) []*EntitySpec {
 		// returns the specs that change (new or modified); es is the current sound set
 		c := func(e *EntitySpec) *EntitySpec { return e.Clone() }
 		switch kind {
+		case "dangling-by-case", "dangling-by-blank":
+			// a reference that differs from the only defined alias by letter case or a trailing blank
+			var cands []*EntitySpec
+			for _, e := range es {
+				if e.Issuer != "" {
+					cands = append(cands, e)
+				}
+			}
+			if len(cands) == 0 {
+				x := c(es[len(es)-1])
+				x.Issuer = "ghost"
+				return []*EntitySpec{x}
+			}
+			x := c(Pick(r, cands))
+			if kind == "dangling-by-case" {
+				x.Issuer = strings.ToUpper(x.Issuer)
+			} else {
+				x.Issuer = x.Issuer + " "
+			}
+			return []*EntitySpec{x}
 		case "dangling":
 			x := c(Pick(r, es))
 			x.Issuer = "ghost"
@@ -189,6 +209,19 @@ func genC18(r *Rng, tier string) *Plan {
 		flags = FlagA | uint8(r.Intn(16))
 	}
 	p.Meta["kind"] = kind
+	if kind == "case-variant-aliases" {
+		// sound: two aliases that differ only by letter case are two aliases (different files, different artifacts)
+		a := Pick(r, ents)
+		tw := &EntitySpec{ID: "twin", Name: strings.ToUpper(a.EffAlias()), Dir: Pick(r, c18Dirs), Ext: "yaml", Subject: []RDN{{"CN", "Case Twin"}}}
+		if tw.Name != a.EffAlias() {
+			if r.Bool() {
+				tw.Issuer = a.EffAlias()
+			}
+			p.Add(Op{K: "put-ent", Spec: tw, Label: "case-twin"})
+		}
+		p.Add(Op{K: "run", Flags: flags, Tags: []string{"decide"}})
+		return p
+	}
 	if kind == "forest" {
 		p.Add(Op{K: "run", Flags: flags, Tags: []string{"decide"}})
 		return p
